@@ -184,6 +184,10 @@ func (info *Info) Encode() []byte {
 		total += len(lookupList)
 	}
 
+	if featureListOffset > 0xFFFF || lookupListOffset > 0xFFFF {
+		panic("script and feature lists too large for 16-bit offsets")
+	}
+
 	buf := make([]byte, total)
 	copy(buf, []byte{
 		0, 1, // major version
